@@ -375,6 +375,8 @@ def run(ctx):
     r1cd_typestate(ctx, prog)
     r2_bounds(ctx, prog)
     r3_length_siblings(ctx, prog)
+    from rules import c17
+    c17.r3_underflow(ctx, prog, rule_id='C12.R2b', text='a reported length is never the result of an unsigned subtraction that can wrap', floor=3, only={g['qname'] for g in prog.functions.values() if g['file'].endswith('/SoftHSM.cpp')}, mode='reported')
 
 
 MUTANTS = [
